@@ -332,3 +332,41 @@ Theorem flocq_within_integer_radius tab D R :
   0 <= D < two24 -> 0 <= R < 4096 ->
   @within (flocq_ops tab) D (@f_of_usize (flocq_ops tab) R) = (D <=? R * R).
 Proof. exact (@within_integer_radius_lemma _ (flocq_FloatIntExact_sq tab) D R). Qed.
+
+(* ---- [powf_sq_table] is satisfiable: the table of the 8191 exact squares ---- *)
+Definition sq_entry (d : Z) : Z * Z * Z := (FN_POWF, fl_of_int d * 4294967296 + f_two, fl_of_int (d * d)).
+Definition sq_table : list (Z * Z * Z) := map (fun n => sq_entry (Z.of_nat n - 4095)) (seq 0 (Z.to_nat 8191)).
+
+Lemma lookup3_map (key val : Z -> Z) fn l d :
+  In d l -> (forall d', In d' l -> key d' = key d -> val d' = val d) ->
+  lookup3 (map (fun x => (fn, key x, val x)) l) fn (key d) = Some (val d).
+Proof.
+  induction l as [|x r IH]; intros I U; [destruct I|].
+  cbn [map lookup3]. rewrite Z.eqb_refl. cbn [andb].
+  destruct (key x =? key d) eqn:E.
+  - apply Z.eqb_eq in E. rewrite (U x (or_introl eq_refl) E). reflexivity.
+  - destruct I as [->|I]; [rewrite Z.eqb_refl in E; discriminate|].
+    apply IH; [exact I|]. intros d' I'. apply U. now right.
+Qed.
+
+Lemma fl_of_int_inj_small d d' : Z.abs d < 16777216 -> Z.abs d' < 16777216 -> fl_of_int d' = fl_of_int d -> d' = d.
+Proof.
+  intros H H' E. destruct (fl_of_int_exact d H) as (_ & V & _). destruct (fl_of_int_exact d' H') as (_ & V' & _).
+  rewrite E, V in V'. now apply eq_IZR.
+Qed.
+
+Theorem powf_sq_table_inhabited : powf_sq_table sq_table.
+Proof.
+  intros d Hd. unfold two24 in Hd. assert (B : -4095 <= d <= 4095) by nia.
+  unfold sq_table. rewrite <- (map_map (fun n => Z.of_nat n - 4095) sq_entry).
+  set (l := map (fun n => Z.of_nat n - 4095) (seq 0 (Z.to_nat 8191))).
+  assert (L : forall x, In x l <-> -4095 <= x <= 4095).
+  { intros x. unfold l. rewrite in_map_iff. split.
+    - intros (n & <- & I). apply in_seq in I. lia.
+    - intros Hx. exists (Z.to_nat (x + 4095)). split; [lia|]. apply in_seq. lia. }
+  unfold sq_entry.
+  apply (lookup3_map (fun x => fl_of_int x * 4294967296 + f_two) (fun x => fl_of_int (x * x)) FN_POWF l d).
+  - apply L. exact B.
+  - intros d' I E. apply L in I. assert (E' : fl_of_int d' = fl_of_int d) by lia.
+    rewrite (fl_of_int_inj_small d d' ltac:(lia) ltac:(lia) E'). reflexivity.
+Qed.
